@@ -22,7 +22,11 @@ extension: scalars `address key_hash key signature chain_id bls12_381_fr bls12_3
 try_unpack: `topyu <type> <value>` = `to_python_object(try_unpack=True)`; `unpack <hex|->` = `blind_unpack`; the table
   may then hold `e:<prefixhex>:<payloadhex|->:<texthex>` (`base58_encode(payload, prefix)`) and
   `u:<datahex|->:<pyobj tokens joined by ~>` (`micheline_value_to_python_object(unforge_micheline(data))`, absent when
-  that raises) — the `b58` / `unpackMich` parameters. -/
+  that raises) — the `b58` / `unpackMich` parameters.
+ticket / lambda: types `k <ann> <type>` (ticket) and `f <ann> <type> <type>` (lambda); values `K<ticketerhex> <v> I<amount>`
+  and `f<codehex>` (code = the canonical JSON text of the body's Micheline); table entries `c:<codehex>:<texthex>`
+  (`micheline_to_michelson(code)`) and `p:<texthex>:<codehex>` (what the text parses and normalises to; absent when that
+  raises) — the `codeText` / `codeOfText` parameters. -/
 
 def readOpt (t : String) : Option (Option String) :=
   if t = "-" then some none
@@ -54,12 +58,13 @@ partial def readTy : List String → Option (Ty × List String)
     pure (.scalar a sc, rest)
   | k :: a :: rest => do
     let a ← readAnn a
-    if k = "O" || k = "l" || k = "S" || k = "c" then
+    if k = "O" || k = "l" || k = "S" || k = "c" || k = "k" then
       let (t, r) ← readTy rest
       match k with
       | "O" => pure (.option a t, r)
       | "l" => pure (.list a t, r)
       | "c" => pure (.contract a t, r)
+      | "k" => pure (.ticket a t, r)
       | _ => pure (.set a t, r)
     else
       let (l, r1) ← readTy rest
@@ -69,6 +74,7 @@ partial def readTy : List String → Option (Ty × List String)
       | "o" => pure (.or a l r, r2)
       | "m" => pure (.map a l r, r2)
       | "b" => pure (.bigMap a l r, r2)
+      | "f" => pure (.lambda a l r, r2)
       | _ => none
   | _ => none
 
@@ -93,6 +99,13 @@ mutual
         let (a, r1) ← readVal rest
         let (b, r2) ← readVal r1
         pure (.pair a b, r2)
+      | 'K' => do
+        let tk ← hexStr body
+        let (x, r1) ← readVal rest
+        match readVal r1 with
+        | some (.int n, r2) => pure (.ticket tk x n, r2)
+        | _ => none
+      | 'f' => (hexStr body).map fun code => (.lambda code, rest)
       | 'L' => do
         let (a, r1) ← readVal rest
         pure (.left a, r1)
@@ -194,6 +207,8 @@ mutual
     | .map kvs => ("m" ++ toString kvs.length) :: showKvs kvs
     | .bigMap kvs => ("b" ++ toString kvs.length) :: showKvs kvs
     | .bigMapId n => ["B" ++ toString n]
+    | .ticket tk x n => ("K" ++ strHex tk) :: (showVal x ++ ["I" ++ toString n])
+    | .lambda code => ["f" ++ strHex code]
   partial def showVals : List Val → List String
     | [] => []
     | x :: xs => showVal x ++ showVals xs
@@ -276,12 +291,22 @@ inductive Fact where
   | text (s : String) (mask : List Bool) (raw : List Nat)
   | enc (pre : String) (payload : List Nat) (text : String)
   | unpacked (data : List Nat) (o : PyObj)
+  | codeText (code text : String)
+  | codeParse (text code : String)
 
 def hexBytes (h : String) : Option (List Nat) := if h = "-" then some [] else parseHex h
 
 /-- `<texthex>:<mask>:<rawhex|->` | `e:<prefixhex>:<payloadhex|->:<texthex>` | `u:<datahex|->:<tok~tok…>` -/
 def readFact (t : String) : Option Fact :=
   match t.splitOn ":" with
+  | ["c", cd, tx] => do
+    let cd ← hexStr cd
+    let tx ← hexStr tx
+    pure (.codeText cd tx)
+  | ["p", tx, cd] => do
+    let tx ← hexStr tx
+    let cd ← hexStr cd
+    pure (.codeParse tx cd)
   | ["e", p, pl, tx] => do
     let p ← hexStr p
     let pl ← hexBytes pl
@@ -319,7 +344,14 @@ def mkCfg (f : Flags) (facts : List Fact) (unpack : Bool) : Cfg :=
       | _ => none).getD "?"
     unpackMich := fun d => facts.findSome? fun
       | .unpacked d' o => if d' == d then some o else none
-      | _ => none }
+      | _ => none
+    codeText := fun cd => (facts.findSome? fun
+      | .codeText cd' tx => if cd' == cd then some tx else none
+      | _ => none).getD "?"
+    codeOfText := fun tx => facts.findSome? fun
+      | .codeParse tx' cd => if tx' == tx then some cd else none
+      | _ => none
+    codeOk := fun _ => true }
 
 def handleUnpack (f : Flags) (facts : List Fact) (l : String) : Option String :=
   match words l with
